@@ -49,7 +49,12 @@ def structural(doc, rnd):
             delete(d, p)
         elif kind == "retype":
             v = get(d, p)
-            repl = rnd.choice([None, 0, "x", [], {}, True, [v], {"k": v}, str(v)[:20], 1.5, -1])
+            # (long values with non-ASCII text at every byte alignment: what an error message quotes of a wrong-typed
+            # value must be cut at a character boundary)
+            wide = rnd.choice(["\u00e9", "\u65e5", "\U0001d11e", "\u043a"])
+            pad = "a" * rnd.randrange(4)
+            repl = rnd.choice([None, 0, "x", [], {}, True, [v], {"k": v}, str(v)[:20], 1.5, -1,
+                               pad + wide * 45, [pad + wide * 40], {pad + wide * 30: wide * 30}])
             set_(d, p, repl)
         elif kind == "duplicate":
             parent = get(d, p[:-1])
@@ -87,7 +92,10 @@ def structural(doc, rnd):
     text = text.replace('"NaN"', "NaN").replace("Infinity", "1e999")
     if "@@DEEP@@" in text:
         n = rnd.choice([200, 5000, 100000])
-        text = text.replace('"@@DEEP@@"', "[" * n + "]" * n, 1)
+        if rnd.random() < 0.5:
+            text = text.replace('"@@DEEP@@"', "[" * n + "]" * n, 1)
+        else:
+            text = text.replace('"@@DEEP@@"', '{"a":' * n + "1" + "}" * n, 1)     # objects nest, too
     return kind, text
 
 
